@@ -10,7 +10,7 @@ VERIF="$(cd "$(dirname "$0")/.." && pwd)"
 MODFLAG="-modfile=$WORKDIR/go.mod"
 case "$prop" in
   c10*) pkgs="modeling modeling/marching" ;;
-  c13*) pkgs="generator/graph generator/sync" ;;
+  c13*) pkgs="generator/graph generator/sync generator" ;;
   selftest) pkgs="" ;;
   *) echo "build-sched: no package list for $prop" >&2; exit 2 ;;
 esac
@@ -36,6 +36,12 @@ PY
 esac
 case "$prop" in
   c13*)
+    # virtual file added to package generator: exported access to the real endpoint constructors
+    python3 - "$ovdir/overlay.json" "$REPO/generator/zz_verif_export.go" "$VERIF/rt-overlay/generator/zz_verif_export.go" <<'PY'
+import json, sys
+p, k, v = sys.argv[1:]
+d = json.load(open(p)); d["Replace"][k] = v; json.dump(d, open(p, "w"), indent=1)
+PY
     # the node graph enumerates dependencies by ranging over maps: pin Go map iteration order
     # (runtime overlay, DESIGN §3.4) so that every schedule replays deterministically
     frag=$(python3 "$VERIF/tools/goroot-overlay/gen_map_overlay.py" "$ovdir/maprt")
